@@ -21,4 +21,55 @@ Subst1 == [Base EXCEPT !.root = "root", !.alloc_std = FALSE, !.alloc = PT(FALSE,
 NoCodec == [Base EXCEPT !.codec = FALSE]
 
 SettingsPool == {Base, NoStd, Derived, Subst1}
+
+Id(n) == TPath(FALSE, <<n>>, <<>>)
+SubSrc(args) == TPath(FALSE, <<"m", "sub", "Sub">>, args)
+Ext(n, args) == TPath(TRUE, <<"ext", n>>, args)
+U8T == TPath(TRUE, <<"core", "primitive", "u8">>, <<>>)
+Rule(src, dst) == [src |-> src, dst |-> dst]
+
+(* derive / attribute registrations for C08: global, specific and recursive on several roots with overlapping reach *)
+DPath(segs) == PT(FALSE, segs)
+DerivePool == <<
+  DCall("all_d", DPath(<<"x">>), <<"::d::All">>, FALSE),
+  DCall("all_a", DPath(<<"x">>), <<"#[all_attr]">>, FALSE),
+  DCall("for_d", DPath(<<"m", "R">>), <<"::d::RecR">>, TRUE),
+  DCall("for_d", DPath(<<"m", "deep", "er", "W">>), <<"::d::RecW", "Clone">>, TRUE),
+  DCall("for_a", DPath(<<"m", "Z">>), <<"#[rec_z]">>, TRUE),
+  DCall("for_d", DPath(<<"m", "leaf", "X">>), <<"::d::SpecX">>, FALSE),
+  DCall("for_d", DPath(<<"m", "G">>), <<"::d::RecG">>, TRUE),
+  DCall("for_a", DPath(<<"m", "Un">>), <<"#[spec_un]">>, FALSE),
+  DCall("for_d", DPath(<<"m", "leaf", "X">>), <<"::d::RecX", "::d::All">>, TRUE),
+  DCall("for_d", DPath(<<"m", "PhT">>), <<"::d::RecPh">>, TRUE),
+  DCall("for_a", DPath(<<"m", "R">>), <<"#[spec_r]">>, FALSE) >>
+LsbRule == Rule(TPath(FALSE, <<"bitvec", "order", "Lsb0">>, <<>>), Ext("Lsb0", <<>>))
+DeriveBase == [Base EXCEPT !.has_compact_as = TRUE, !.subs = <<LsbRule>>]
+\* every 1- and 2-element selection of the pool (order of registration as listed), plus everything at once
+DeriveSettings == {[DeriveBase EXCEPT !.derive_calls = <<DerivePool[i]>>] : i \in DOMAIN DerivePool}
+                  \cup {[DeriveBase EXCEPT !.derive_calls = <<DerivePool[i], DerivePool[j]>>] : i \in DOMAIN DerivePool, j \in DOMAIN DerivePool}
+                  \cup {[DeriveBase EXCEPT !.derive_calls = DerivePool], [DeriveBase EXCEPT !.derive_calls = DerivePool, !.has_compact_as = FALSE]}
+CompactAsSettings == {[DeriveBase EXCEPT !.derive_calls = <<DerivePool[1]>>], [DeriveBase EXCEPT !.has_compact_as = FALSE]}
+
+(* substitution rules over m::sub::Sub<A,B> (and the prelude BTreeMap): pass-through, declared generics in order / *)
+(* swapped / nested / repeated / missing / with a fixed extra argument, fewer source parameters, fixed arguments    *)
+(* without declared source parameters                                                                               *)
+SubRules == {
+  Rule(SubSrc(<<>>), Ext("Sub2", <<>>)),
+  Rule(SubSrc(<<Id("A"), Id("B")>>), Ext("Sub2", <<Id("A"), Id("B")>>)),
+  Rule(SubSrc(<<Id("A"), Id("B")>>), Ext("Sub2", <<Id("B"), Id("A")>>)),
+  Rule(SubSrc(<<Id("A"), Id("B")>>), Ext("W", <<Ext("Sub2", <<Id("A"), Ext("V", <<Id("B")>>)>>)>>)),
+  Rule(SubSrc(<<Id("A"), Id("B")>>), Ext("Sub2", <<Id("A"), Id("A")>>)),
+  Rule(SubSrc(<<Id("A"), Id("B")>>), Ext("Sub2", <<Id("B")>>)),
+  Rule(SubSrc(<<Id("A"), Id("B")>>), Ext("Sub2", <<Id("A"), Id("B"), U8T>>)),
+  Rule(SubSrc(<<Id("A")>>), Ext("Sub2", <<Id("A")>>)),
+  Rule(SubSrc(<<Id("A"), Id("B"), Id("C")>>), Ext("Sub2", <<Id("C"), Id("A")>>)),
+  Rule(SubSrc(<<>>), Ext("Sub2", <<U8T>>)),
+  Rule(SubSrc(<<Id("A"), Id("B")>>), TPath(FALSE, <<"crate", "x", "Sub3">>, <<Id("X"), Id("B")>>)) }
+MapRule == Rule(TPath(FALSE, <<"BTreeMap">>, <<>>), Ext("Map", <<>>))
+MapRule2 == Rule(TPath(FALSE, <<"BTreeMap">>, <<Id("K"), Id("V")>>), Ext("Map", <<Id("V"), Id("K")>>))
+SubSettings == {[Base EXCEPT !.subs = <<r>>] : r \in SubRules}
+               \cup {[Base EXCEPT !.subs = <<r, MapRule>>] : r \in {Rule(SubSrc(<<>>), Ext("Sub2", <<>>))}}
+               \cup {[NoStd EXCEPT !.subs = <<MapRule2, r>>] : r \in {Rule(SubSrc(<<Id("A"), Id("B")>>), Ext("Sub2", <<Id("B"), Id("A")>>))}}
+               \* a rule that is replaced by a later one for the same source path
+               \cup {[Base EXCEPT !.subs = <<Rule(SubSrc(<<>>), Ext("Old", <<>>)), Rule(SubSrc(<<Id("A"), Id("B")>>), Ext("Sub2", <<Id("B"), Id("A")>>))>>]}
 ======================================================================================
